@@ -150,6 +150,21 @@ pub fn connections() -> Vec<Conn> {
     let e = Ends { cip: 5, cport: 42000, sip: 15, sport: 443, v6: false };
     let b = hello_bytes("shared-client.example");
     v.push(Conn { name: s("clienthello-sharing-client-endpoint"), pkts: vec![(seg(&e, true, SYN, 1000, &[], Some(1_000)), T0 + 23), (seg(&e, true, ACK | PSH, 1001, &b[..60], Some(1_050)), T0 + 523), (seg(&e, true, ACK | PSH, 1061, &b[60..], Some(1_100)), T0 + 1023)] });
+    // twins that differ in exactly ONE component of the connection identity (client address, client port, server address,
+    // server port) from a base connection: a ClientHello in two segments, an HTTP/1 exchange, a timestamped handshake each
+    for (ci, (cip, cport, sip, sport)) in [(33u8, 48000u16, 34u8, 443u16), (37, 48000, 34, 443), (33, 48001, 34, 443), (33, 48000, 38, 443), (33, 48000, 34, 8443)].into_iter().enumerate() {
+        let tag = ["base", "other-client-address", "other-client-port", "other-server-address", "other-server-port"][ci];
+        let e = Ends { cip, cport, sip, sport, v6: false };
+        let b = hello_bytes(&format!("one-component-{tag}.example"));
+        v.push(Conn { name: format!("one-component-{tag}-clienthello"), pkts: vec![(seg(&e, true, SYN, 1000, &[], None), T0 + 41), (seg(&e, true, ACK | PSH, 1001, &b[..50], None), T0 + 42), (seg(&e, true, ACK | PSH, 1051, &b[50..], None), T0 + 43)] });
+        let rq = format!("GET /{tag} HTTP/1.1\r\nHost: one.example\r\nUser-Agent: agent-{tag}\r\n\r\n");
+        let rs = format!("HTTP/1.1 200 OK\r\nServer: srv-{tag}\r\nContent-Length: 0\r\n\r\n");
+        let e = Ends { cip: cip + 10, cport, sip: sip + 10, sport: if sport == 443 { 80 } else { 8080 }, v6: true };
+        v.push(http_conn(&format!("one-component-{tag}-http1-exchange"), &e, rq.as_bytes(), &[25], rs.as_bytes(), &[12], T0 + 45));
+        let e = Ends { cip: cip + 20, cport, sip: sip + 20, sport, v6: false };
+        let (tc, tsrv) = (100_000 + 7777 * ci as u32, 3_000_000 + 55_555 * ci as u32);
+        v.push(Conn { name: format!("one-component-{tag}-tcp-handshake-ts"), pkts: vec![(seg(&e, true, SYN, 1000, &[], Some(tc)), T0 + 47), (seg(&e, false, SYN | ACK, 5000, &[], Some(tsrv)), T0 + 77), (seg(&e, true, ACK, 1001, &[], Some(tc + 100)), T0 + 1047), (seg(&e, false, ACK | PSH, 5001, b"x", Some(tsrv + 2000)), T0 + 2077)] });
+    }
     // twins that differ in nothing but the IP version: an IPv4 connection and the IPv6 connection between the IPv4-mapped
     // forms of the same addresses (::ffff:a.b.c.d), same ports, same direction -- a timestamped handshake, a ClientHello
     // in two segments and an HTTP/1 exchange each
@@ -509,7 +524,7 @@ pub fn run(thorough: bool) -> Outcome {
     check_capacity_pressure(&mut pre);
     Outcome {
         report: pre.merge(rep),
-        rule: "26 connections (TCP handshakes with timestamps incl. IPv6 and two clients using the same ephemeral port towards one server endpoint, ClientHello in 1/2/3 segments incl. IPv6, two HTTP/1 exchanges sharing a server, HTTP/2 exchanges: static only / literal with indexing / referencing foreign dynamic entries / size update 0 / state change followed by a decoding error / self reference, garbage after SYN, a TLS flow sharing the HTTP client's endpoint, and three pairs of twins that differ only in IP version - IPv4 vs the IPv4-mapped IPv6 form of the same addresses and ports - as timestamped handshake, ClientHello and HTTP/1 exchange): every unordered pair (thorough: every triple of the 8 shortest) in every order-preserving interleaving on fresh TCP, HTTP, TLS and unified analyzers (capacity 8), each packet's result compared with the isolated run; plus successions on one 4-tuple: 7 HTTP predecessors (complete, closed by FIN, request only, handshake only, unfinished head, binary) x HTTP/1 and HTTP/2 successors with other initial sequence numbers whose SYN is plain, ECN-setup (ECE|CWR), SYN|PSH or SYN|URG, 4 TLS predecessors x a ClientHello successor (plain and ECN-setup SYN), the successor's results compared with its isolated run; capacity pressure: pairs of 4 kinds of TLS connections that need one table slot at a time on analyzers with capacity 2, every interleaving; distinct = distinct per-trace result vectors".into(),
+        rule: "41 connections (TCP handshakes with timestamps incl. IPv6 and two clients using the same ephemeral port towards one server endpoint, ClientHello in 1/2/3 segments incl. IPv6, two HTTP/1 exchanges sharing a server, HTTP/2 exchanges: static only / literal with indexing / referencing foreign dynamic entries / size update 0 / state change followed by a decoding error / self reference, garbage after SYN, a TLS flow sharing the HTTP client's endpoint, three x five connections that differ from a base in exactly one identity component (client address / client port / server address / server port), and three pairs of twins that differ only in IP version - IPv4 vs the IPv4-mapped IPv6 form of the same addresses and ports - as timestamped handshake, ClientHello and HTTP/1 exchange): every unordered pair (thorough: every triple of the 8 shortest) in every order-preserving interleaving on fresh TCP, HTTP, TLS and unified analyzers (capacity 8), each packet's result compared with the isolated run; plus successions on one 4-tuple: 7 HTTP predecessors (complete, closed by FIN, request only, handshake only, unfinished head, binary) x HTTP/1 and HTTP/2 successors with other initial sequence numbers whose SYN is plain, ECN-setup (ECE|CWR), SYN|PSH or SYN|URG, 4 TLS predecessors x a ClientHello successor (plain and ECN-setup SYN), the successor's results compared with its isolated run; capacity pressure: pairs of 4 kinds of TLS connections that need one table slot at a time on analyzers with capacity 2, every interleaving; distinct = distinct per-trace result vectors".into(),
         exhaustive: true,
         bounds: json!({"connections": conns.len(), "groups": groups.len(), "max_group": if thorough {3} else {2}}),
     }
